@@ -169,16 +169,17 @@ func internMany() []byte {
 
 func marshalCall(name, kind string, unordered bool, v func() any, o ...O) Call {
 	return Call{Name: name, Kind: kind, Unordered: unordered, Run: func() Out {
+		r := new(rec) // every error this execution receives is a retained result
 		var out []byte
 		res := catch(func() string {
 			b, err := json.Marshal(v(), o...)
 			out = b
 			if unordered {
-				return canonUnordered(b) + " " + errStr(err)
+				return canonUnordered(b) + " " + r.E(err)
 			}
-			return dig(b) + " " + errStr(err)
+			return dig(b) + " " + r.E(err)
 		})
-		return Out{Res: res, Keep: func() string { return full(out) }}
+		return Out{Res: res, Keep: r.keep(func() string { return full(out) })}
 	}}
 }
 
@@ -192,6 +193,7 @@ const (
 
 func marshalWriteCall(name, kind string, wkind, failAt int, v func() any, o ...O) Call {
 	return Call{Name: name, Kind: kind, Run: func() Out {
+		r := new(rec) // every error this execution receives is a retained result
 		var get func() []byte
 		res := catch(func() string {
 			var err error
@@ -213,33 +215,35 @@ func marshalWriteCall(name, kind string, wkind, failAt int, v func() any, o ...O
 			if err != nil && wkind == wPlain {
 				// How much reached the writer before a failure depends on the capacity of the pooled
 				// buffer (flush points), which no caller can rely on: only the error is compared.
-				return fmt.Sprintf("partial(%v) ", len(get()) > 0) + errStr(err)
+				return fmt.Sprintf("partial(%v) ", len(get()) > 0) + r.E(err)
 			}
-			return dig(get()) + " " + errStr(err)
+			return dig(get()) + " " + r.E(err)
 		})
-		return Out{Res: res, Keep: func() string {
+		return Out{Res: res, Keep: r.keep(func() string {
 			if get == nil {
 				return ""
 			}
 			return full(get())
-		}}
+		})}
 	}}
 }
 
 func unmarshalCall(name, kind string, text any, mk func() any, o ...O) Call {
 	return Call{Name: name, Kind: kind, Run: func() Out {
+		r := new(rec) // every error this execution receives is a retained result
 		in := bytes.Clone(textOf(text))
 		target := mk()
 		res := catch(func() string {
 			err := json.Unmarshal(in, target, o...)
-			return short(dump(target)) + " " + errStr(err)
+			return short(dump(target)) + " " + r.E(err)
 		})
-		return Out{Res: res, Keep: func() string { return short(dump(target)) }, Scribble: func() { scribble(in) }}
+		return Out{Res: res, Keep: r.keep(func() string { return short(dump(target)) }), Scribble: func() { scribble(in) }}
 	}}
 }
 
 func unmarshalReadCall(name, kind string, text any, chunk, failAt int, mk func() any, o ...O) Call {
 	return Call{Name: name, Kind: kind, Run: func() Out {
+		r := new(rec) // every error this execution receives is a retained result
 		in := bytes.Clone(textOf(text))
 		target := mk()
 		res := catch(func() string {
@@ -249,9 +253,9 @@ func unmarshalReadCall(name, kind string, text any, chunk, failAt int, mk func()
 			} else {
 				err = json.UnmarshalRead(&chunkReader{b: in, n: chunk, failAt: failAt}, target, o...)
 			}
-			return short(dump(target)) + " " + errStr(err)
+			return short(dump(target)) + " " + r.E(err)
 		})
-		return Out{Res: res, Keep: func() string { return short(dump(target)) }, Scribble: func() { scribble(in) }}
+		return Out{Res: res, Keep: r.keep(func() string { return short(dump(target)) }), Scribble: func() { scribble(in) }}
 	}}
 }
 
@@ -280,6 +284,7 @@ const (
 
 func formatCall(name string, op fmtOp, textSrc any, o ...O) Call {
 	return Call{Name: name, Kind: "format", Run: func() Out {
+		r := new(rec) // every error this execution receives is a retained result
 		text := textOf(textSrc)
 		src := bytes.Clone(text)
 		v := jsontext.Value(bytes.Clone(text))
@@ -302,18 +307,27 @@ func formatCall(name string, op fmtOp, textSrc any, o ...O) Call {
 			case fAppend:
 				out, err = jsontext.AppendFormat([]byte("dst:"), src, o...)
 			}
-			return dig(out) + " " + errStr(err) + fmt.Sprintf(" valid=%v kind=%s", jsontext.Value(text).IsValid(o...), jsontext.Value(text).Kind())
+			return dig(out) + " " + r.E(err) + fmt.Sprintf(" valid=%v kind=%s", jsontext.Value(text).IsValid(o...), jsontext.Value(text).Kind())
 		})
-		return Out{Res: res, Keep: func() string { return full(out) }, Scribble: func() { scribble(src) }}
+		return Out{Res: res, Keep: r.keep(func() string { return full(out) }), Scribble: func() { scribble(src) }}
 	}}
 }
 
 func encScriptCall(s EncScript) Call {
-	return Call{Name: "enc-script/" + s.Name, Kind: "coder", Run: func() Out { return Out{Res: s.Fresh()} }}
+	return Call{Name: "enc-script/" + s.Name, Kind: "coder", Run: func() Out {
+		r := new(rec) // every error this execution receives is a retained result
+		sink := s.Sink()
+		res := catch(func() string { return s.RunEncR(jsontext.NewEncoder(sink.W, s.Opts...), sink, r) })
+		return Out{Res: res, Keep: r.keep(func() string { return full(sink.Out()) })}
+	}}
 }
 
 func decScriptCall(s DecScript) Call {
-	return Call{Name: "dec-script/" + s.Name, Kind: "coder", Run: func() Out { return Out{Res: s.Fresh()} }}
+	return Call{Name: "dec-script/" + s.Name, Kind: "coder", Run: func() Out {
+		r := new(rec) // every error this execution receives is a retained result
+		res := catch(func() string { return s.RunDecR(jsontext.NewDecoder(s.Reader(), s.Opts...), r) })
+		return Out{Res: res, Keep: r.keep(func() string { return "" })}
+	}}
 }
 
 var orderSeed atomic.Uint64
@@ -408,22 +422,24 @@ func Build() []Call {
 		marshalCall("marshal/map-dup-keys-error", "marshal", false, fixed(map[TextKeyDup]int{{1}: 1, {2}: 1}), json.Deterministic(true)),
 	)
 	add(Call{Name: "marshal/v1.Marshal", Kind: "marshal", Run: func() Out {
+		r := new(rec) // every error this execution receives is a retained result
 		var out []byte
 		res := catch(func() string {
 			b, err := jsonv1.Marshal(basicValue())
 			out = b
-			return dig(b) + " " + errStr(err)
+			return dig(b) + " " + r.E(err)
 		})
-		return Out{Res: res, Keep: func() string { return full(out) }}
+		return Out{Res: res, Keep: r.keep(func() string { return full(out) })}
 	}})
 	add(Call{Name: "marshal/v1.MarshalIndent", Kind: "marshal", Run: func() Out {
+		r := new(rec) // every error this execution receives is a retained result
 		var out []byte
 		res := catch(func() string {
 			b, err := jsonv1.MarshalIndent(map[string]any{"b": []int{1, 2}, "a": map[string]any{}}, "#", "--")
 			out = b
-			return dig(b) + " " + errStr(err)
+			return dig(b) + " " + r.E(err)
 		})
-		return Out{Res: res, Keep: func() string { return full(out) }}
+		return Out{Res: res, Keep: r.keep(func() string { return full(out) })}
 	}})
 
 	// ---- MarshalWrite / MarshalEncode
@@ -435,20 +451,21 @@ func Build() []Call {
 		marshalWriteCall("marshalwrite/error-after-flush", "marshal", wPlain, 0, func() any { return []any{wideStrings()[:500], make(chan int)} }),
 	)
 	add(Call{Name: "marshalencode/stream-in-open-array", Kind: "coder", Run: func() Out {
+		r := new(rec) // every error this execution receives is a retained result
 		bb := new(bytes.Buffer)
 		res := catch(func() string {
 			enc := jsontext.NewEncoder(bb, jsontext.WithIndent(" "))
 			var errs []string
-			errs = append(errs, errStr(enc.WriteToken(jsontext.BeginArray)))
-			errs = append(errs, errStr(json.MarshalEncode(enc, basicValue().Inner)))
-			errs = append(errs, errStr(json.MarshalEncode(enc, map[string]any{"c": make(chan int)})))                 // fails inside
-			errs = append(errs, errStr(json.MarshalEncode(enc, []int{1, 2}, jsontext.WithIndent("\t"))))              // changing whitespace: rejected
-			errs = append(errs, errStr(json.MarshalEncode(enc, Nums{I8: 1}, json.StringifyNumbers(true))))            // scoped option
-			errs = append(errs, errStr(json.MarshalEncode(enc, Nums{I8: 2})))                                         // option gone again
-			errs = append(errs, errStr(enc.WriteToken(jsontext.EndArray)))
+			errs = append(errs, r.E(enc.WriteToken(jsontext.BeginArray)))
+			errs = append(errs, r.E(json.MarshalEncode(enc, basicValue().Inner)))
+			errs = append(errs, r.E(json.MarshalEncode(enc, map[string]any{"c": make(chan int)})))                 // fails inside
+			errs = append(errs, r.E(json.MarshalEncode(enc, []int{1, 2}, jsontext.WithIndent("\t"))))              // changing whitespace: rejected
+			errs = append(errs, r.E(json.MarshalEncode(enc, Nums{I8: 1}, json.StringifyNumbers(true))))            // scoped option
+			errs = append(errs, r.E(json.MarshalEncode(enc, Nums{I8: 2})))                                         // option gone again
+			errs = append(errs, r.E(enc.WriteToken(jsontext.EndArray)))
 			return strings.Join(errs, "|") + fmt.Sprintf(" off=%d out=%s", enc.OutputOffset(), dig(bb.Bytes()))
 		})
-		return Out{Res: res, Keep: func() string { return full(bb.Bytes()) }}
+		return Out{Res: res, Keep: r.keep(func() string { return full(bb.Bytes()) })}
 	}})
 
 	// ---- user marshal code: errors, misbehaviour, panics at various points
@@ -475,13 +492,14 @@ func Build() []Call {
 		marshalCall("user/funcs-not-applied-without-option", "user", false, fixed([]any{FnOK(3), true, FnPanic(1)})),
 	)
 	add(Call{Name: "user/marshalwrite-half-panic-plain", Kind: "user", Run: func() Out {
+		r := new(rec) // every error this execution receives is a retained result
 		w := &plainWriter{}
 		res := catch(func() string {
 			err := json.MarshalWrite(w, []any{wideStrings()[:300], ToFrom{M: MHalfPanic}})
-			return errStr(err)
+			return r.E(err)
 		})
 		// the amount flushed before the panic depends on pooled buffer capacity: not part of the result
-		return Out{Res: res, Keep: func() string { return full(w.b.Bytes()) }}
+		return Out{Res: res, Keep: r.keep(func() string { return full(w.b.Bytes()) })}
 	}})
 
 	// ---- large documents (grow every pooled buffer beyond its keep limit)
@@ -577,12 +595,14 @@ func Build() []Call {
 		unmarshalReadCall("unmarshalread/trailing", "unmarshal", []byte(`[1] [2]`), 3, -1, newT[[]int]()),
 	)
 	add(Call{Name: "unmarshal/v1.Unmarshal", Kind: "unmarshal", Run: func() Out {
+		r := new(rec) // every error this execution receives is a retained result
 		in := bytes.Clone(valid)
 		target := new(Basic)
-		res := catch(func() string { err := jsonv1.Unmarshal(in, target); return short(dump(target)) + " " + errStr(err) })
-		return Out{Res: res, Keep: func() string { return short(dump(target)) }, Scribble: func() { scribble(in) }}
+		res := catch(func() string { err := jsonv1.Unmarshal(in, target); return short(dump(target)) + " " + r.E(err) })
+		return Out{Res: res, Keep: r.keep(func() string { return short(dump(target)) }), Scribble: func() { scribble(in) }}
 	}})
 	add(Call{Name: "unmarshaldecode/stream", Kind: "coder", Run: func() Out {
+		r := new(rec) // every error this execution receives is a retained result
 		in := []byte(`{"id":1} {"id":2,"tags":["x"]} {"id":"bad"} [1,2] {"id":4`)
 		var got []any
 		res := catch(func() string {
@@ -597,11 +617,73 @@ func Build() []Call {
 					err = json.UnmarshalDecode(dec, v)
 				}
 				got = append(got, v)
-				fmt.Fprintf(&b, "%s %s off=%d|", dump(v), errStr(err), dec.InputOffset())
+				fmt.Fprintf(&b, "%s %s off=%d|", dump(v), r.E(err), dec.InputOffset())
 			}
 			return b.String()
 		})
-		return Out{Res: res, Keep: func() string { return dump(got) }}
+		return Out{Res: res, Keep: r.keep(func() string { return dump(got) })}
+	}})
+
+	// ---- semantic errors that carry the offending JSON value (SemanticError.JSONValue): the error is
+	// retained and re-examined after later calls / after the input is scribbled over; each text
+	// arrives as a []byte, through a *bytes.Buffer and through a chunked reader (pooled streaming decoder)
+	for _, tc := range []struct {
+		name string
+		text string
+		mk   func() any
+		o    []O
+	}{
+		{"int8-range", `{"u64":1, "i8":300, "f64":2}`, newT[Nums](), nil},
+		{"int8-fraction", `{"pad":"` + strings.Repeat("p", 90) + `","i8":1.5}`, newT[Nums](), nil},
+		{"uint-negative", `  {"u64":-17}`, newT[Nums](), nil},
+		{"float64-range", `{"f32":1, "f64":1e999}`, newT[Nums](), nil},
+		{"float32-range", `{"f32":3.5e38}`, newT[Nums](), nil},
+		{"any-float-range", `[1, "two", {"deep":[-2e400]}]`, newT[any](), nil},
+		{"map-key-range", `{"M":{"99999999999999999999":1}}`, newT[Nums](), nil},
+		{"stringified-int-invalid", `{"i8":"12x"}`, newT[Nums](), opts(json.StringifyNumbers(true))},
+		{"stringified-uint-invalid", `{"pad":[1,2,3,4,5,6,7,8,9,10,11,12,13,14,15,16], "u64":"-"}`, newT[Nums](), opts(json.StringifyNumbers(true))},
+		{"stringified-float-invalid", `{"f64":"1e"}`, newT[Nums](), opts(json.StringifyNumbers(true))},
+		{"slice-int-range-late", `[` + strings.Repeat("1,", 300) + `777777777777777777777777]`, newT[[]int32](), nil},
+		{"v1-int-range", `{"i8":-129}`, newT[Nums](), opts(v1)},
+	} {
+		add(
+			unmarshalCall("semval/"+tc.name+"/bytes", "semval", []byte(tc.text), tc.mk, tc.o...),
+			unmarshalReadCall("semval/"+tc.name+"/buffer", "semval", []byte(tc.text), 0, -1, tc.mk, tc.o...),
+			unmarshalReadCall("semval/"+tc.name+"/chunk5", "semval", []byte(tc.text), 5, -1, tc.mk, tc.o...),
+			unmarshalReadCall("semval/"+tc.name+"/chunk64", "semval", []byte(tc.text), 64, -1, tc.mk, tc.o...),
+		)
+	}
+	add(Call{Name: "semval/unmarshaldecode-stream-chunked", Kind: "semval", Run: func() Out {
+		r := new(rec)
+		in := []byte(`300 1 -5.5 ` + strings.Repeat(" ", 200) + ` 1e999 -129 3`)
+		var got []any
+		res := catch(func() string {
+			dec := jsontext.NewDecoder(&chunkReader{b: in, n: 16, failAt: -1})
+			var b strings.Builder
+			for i := 0; i < 7; i++ {
+				v := new(int8)
+				err := json.UnmarshalDecode(dec, v)
+				got = append(got, v)
+				fmt.Fprintf(&b, "%d %s|", *v, r.E(err))
+			}
+			return b.String()
+		})
+		return Out{Res: res, Keep: r.keep(func() string { return dump(got) }), Scribble: func() { scribble(in) }}
+	}})
+	add(Call{Name: "semval/unmarshaldecode-stream-buffer", Kind: "semval", Run: func() Out {
+		r := new(rec)
+		in := []byte(`70000 1 1.5 "x" -1e3`)
+		res := catch(func() string {
+			dec := jsontext.NewDecoder(bytes.NewBuffer(in))
+			var b strings.Builder
+			for i := 0; i < 6; i++ {
+				v := new(uint16)
+				err := json.UnmarshalDecode(dec, v)
+				fmt.Fprintf(&b, "%v %s|", *v, r.E(err))
+			}
+			return b.String()
+		})
+		return Out{Res: res, Keep: r.keep(func() string { return "" }), Scribble: func() { scribble(in) }}
 	}})
 
 	// ---- user unmarshal code
